@@ -705,7 +705,8 @@ let check_tokens (cfg : econfig) (ops : eop list) (tr : tok list) : unit =
          | TLookup (KLT, _, ROk, Some l) -> if stores <> [] && rs_valid l.r_state && not (rs_finished l.r_state) then bad "C09" "Trigger created a run while run %d is unfinished" (ni l.r_run)
          | _ -> ()) seg;
        ignore fid
-     | (OCtl (_, o, _, _)) when on "C03" ->
+     | (OCtl (_, o, _, _)) when on "C03" || (on "C15" && o = OpDeleteData) ->
+       let bad _ fmt = bad (if on "C03" then "C03" else "C15") fmt in
        let stores = List.filter (function TStore _ -> true | _ -> false) seg in
        let api_ok = List.exists (function TApi z -> zi z = 0 | _ -> false) seg in
        let looked = List.find_opt (function TLookup (KLK, _, ROk, Some _) -> true | _ -> false) seg in
